@@ -172,6 +172,21 @@ func c20Consistencies(p *Prog, r *Report) {
 	cls := p.constsOfType("primitive", "ConsistencyLevel")
 	clF := p.Field("proxy", "clWrapper", "ConsistencyLevel")
 	labels := labelsOf(fn)
+	// a lookup table instead of a switch: its keys are the labels
+	eachInstr(fn, func(in ssa.Instruction) {
+		if lk, ok := in.(*ssa.Lookup); ok {
+			if ld, ok := lk.X.(*ssa.UnOp); ok {
+				if g, ok := ld.X.(*ssa.Global); ok {
+					if tbl, ok := p.constMapLiteral(g); ok {
+						for k := range tbl {
+							labels = append(labels, k)
+						}
+					}
+				}
+			}
+		}
+	})
+	sort.Strings(labels)
 	run := func(label string) (string, AV) {
 		s := newSim(p)
 		s.Tracked[clF] = true
@@ -267,6 +282,10 @@ func c20Run(p *Prog, r *Report) {
 			s.Tracked[f] = true
 		}
 		pvCalls := 0
+		// phases of Run moved into methods of the configuration object are looked through
+		s.Inline = func(f *ssa.Function) bool {
+			return recvNamed(f) == rc && f.Parent() == nil && f.Name() != "listenAndServe" && onlyCalledFrom(p, f, run, 2)
+		}
 		s.Model = func(sm *Sim, st *State, call ssa.CallInstruction, callee *ssa.Function) []*State {
 			if callee == nil {
 				return nil
@@ -460,30 +479,37 @@ func c20Run(p *Prog, r *Report) {
 		r.check(len(groups[g]) == 0, "C20.validation", g, p.Pos(run.Pos()), fmt.Sprintf("%d cells", counts[g]), strings.Join(groups[g], " || "))
 	}
 	r.count("validation_cells", len(cells))
-	// no backend given: the resolver chain ends in an error report
-	// (covered by report-then-stop: the final else of the backend selection reports and returns 1)
-	noBackend := false
-	eachInstr(run, func(in ssa.Instruction) {
-		if c, ok := in.(*ssa.Call); ok && c.Call.StaticCallee() != nil && c.Call.StaticCallee().Name() == "Errorf" {
-			for _, a := range c.Call.Args {
-				if s, ok := constStr(a); ok && strings.Contains(s, "must provide") {
-					// guarded by all three backend options being empty
-					n := 0
-					for _, ct := range dominatingConds(c.Block()) {
-						if !ct.Truth {
-							if bo, ok := ct.Cond.(*ssa.BinOp); ok && bo.Op == token.GTR {
-								n++
-							}
-						}
-					}
-					if n >= 3 {
-						noBackend = true
-					}
+	// no backend given (no bundle, no token, no contact points): refused
+	{
+		cell := runCell{name: "no backend", reject: true, versions: [2]string{"ProtocolVersion4", "ProtocolVersion4"},
+			bind: func(st *State, s *Sim) {
+				st.cells[hbF], st.cells[idleF], st.cells[ncF] = dur(30), dur(60), avInt(1)
+				s.TrackLens = true
+				for _, f := range []*types.Var{bundleF, tokenF} {
+					s.Tracked[f] = true
+					st.cells[f] = AV{K: avConst, C: constant.MakeString("")}
 				}
+				s.Tracked[cpF] = true
+				st.cells[cpF] = AV{K: avNil}
+			}}
+		var problems []string
+		s, init := mkSim(&cell, &problems)
+		outs := s.Run(run, init)
+		r.count("sim_states", s.Nodes)
+		built, refused := 0, 0
+		for _, o := range outs {
+			if o.Panic {
+				continue
+			}
+			if o.St.eff["newproxy"] > 0 {
+				built++
+			} else if o.Ret.K == avConst && constant.Sign(o.Ret.C) != 0 {
+				refused++
 			}
 		}
-	})
-	r.check(noBackend, "C20.validation", "no-backend", p.Pos(run.Pos()), "", "start-up without bundle, token or contact points is not refused")
+		r.check(built == 0 && refused > 0, "C20.validation", "no-backend", p.Pos(run.Pos()), fmt.Sprintf("%d refusing path(s)", refused),
+			fmt.Sprintf("start-up without bundle, token or contact points is not refused: %d path(s) build a proxy, %d refuse", built, refused))
+	}
 }
 
 func c20Peers(p *Prog, r *Report) {
